@@ -111,6 +111,20 @@ func (h *chunkHeartbeat) Marshal() ([]byte, error) {
 	return h.chunkHeader.marshal()
 }
 
+// marshal implements the chunk interface so that packet.marshal serialises the
+// Heartbeat Info parameter instead of falling back to the embedded chunkHeader.
+func (h *chunkHeartbeat) marshal() ([]byte, error) {
+	if len(h.params) == 0 {
+		// unmarshal accepts a HEARTBEAT without parameters; keep that round trip.
+		h.chunkHeader.typ = ctHeartbeat
+		h.chunkHeader.raw = nil
+
+		return h.chunkHeader.marshal()
+	}
+
+	return h.Marshal()
+}
+
 func (h *chunkHeartbeat) check() (abort bool, err error) {
 	return false, nil
 }
